@@ -132,6 +132,9 @@ type pp struct {
 	wrapErrs bool
 	// wrappedErr records the target of the %w verb.
 	wrappedErr error
+	// wrapCaptured is set when the %w directive being processed has
+	// recorded its operand in wrappedErr.
+	wrapCaptured bool
 }
 
 var ppFree = sync.Pool{
@@ -620,6 +623,7 @@ func (p *pp) handleMethods(verb rune) (handled bool) {
 			return true
 		}
 		p.wrappedErr = err
+		p.wrapCaptured = true
 		// If the arg is a Formatter, pass 'v' as the verb to it.
 		verb = 'v'
 	}
@@ -1171,7 +1175,7 @@ formatLoop:
 						p.fmt.plusV = p.fmt.plus
 						p.fmt.plus = false
 					}
-					p.printArg(a[argNum], rune(c))
+					p.printVerbArg(a[argNum], rune(c))
 					argNum++
 					i++
 					continue formatLoop
@@ -1267,7 +1271,7 @@ formatLoop:
 			p.fmt.plus = false
 			fallthrough
 		default:
-			p.printArg(a[argNum], verb)
+			p.printVerbArg(a[argNum], verb)
 			argNum++
 		}
 	}
